@@ -294,7 +294,22 @@ def run_lineage(case):
     x0 = M.get_species_array().copy()
     cells = [LineageVolumeCellState(v0=1.0, t0=start, state=x0.copy(), time=start) for _ in range(case["cells"])]
     try:
-        lin = py_SimulateCellLineage(tp.copy(), initial_cell_states=cells, Model=M, safe=case["safe"])
+        if case["seed"] % 3 == 0:
+            # one LineageSSASimulator object used through its method: first a call that is refused (a cell with volume 0 in
+            # the initial list, after a good cell), caught; then the real call on the same object
+            from bioscrape.lineage import LineageSSASimulator
+            itf_ = SafeLineageCSimInterface(M) if case["safe"] else LineageCSimInterface(M)
+            itf_.py_set_initial_time(float(tp[0]))
+            simobj = LineageSSASimulator()
+            try:
+                simobj.py_SimulateCellLineage(tp.copy(), initial_cell_states=[LineageVolumeCellState(v0=1.0, t0=start, state=x0.copy(), time=start),
+                                                                              LineageVolumeCellState(v0=0.0, t0=start, state=x0.copy(), volume=0.0, time=start)], interface=itf_)
+                C["bad_initial_cell_accepted"] += 1
+            except Exception:
+                C["simulator_objects_reused_after_refused_call"] += 1
+            lin = simobj.py_SimulateCellLineage(tp.copy(), initial_cell_states=cells, interface=itf_)
+        else:
+            lin = py_SimulateCellLineage(tp.copy(), initial_cell_states=cells, Model=M, safe=case["safe"])
     except ValueError as e:
         if "dividing too fast" in str(e):
             # the library's own explicit refusal: with strong partition noise a daughter can be born above the division
@@ -375,6 +390,9 @@ def run_lineage(case):
             gen_depth[id(s)] = gen_depth.get(id(par), 0) + 1
         else:
             gen_depth[id(s)] = 0
+    roots = sum(1 for s_ in sch if s_.py_get_parent() is None)
+    if roots != case["cells"]:
+        bad("lineage-roots", "%d cells without a mother in the returned lineage, %d initial cells were given" % (roots, case["cells"]))
     C["zero_propensity_cells"] += zero_prop_cells
     # single-cell simulation of the same model: same row invariants
     brandom.py_seed_random(case["seed"] + 1)
